@@ -1804,6 +1804,9 @@ class Common(Statement):
             s = ", ".join(s)
             if name:
                 bits.append("/ %s / %s" % (name, s))
+            elif bits:
+                # Blank common following a named block keeps its slashes.
+                bits.append("// %s" % s)
             else:
                 bits.append(s)
         tab = self.get_indent_tab(isfix=isfix)
